@@ -34,6 +34,12 @@ def fld(o: Any, name: str) -> Any:
     """Field access by mangled name on SObj or real object."""
     if isinstance(o, SObj):
         return o.fields[name]
+    if name.startswith("$"):
+        # ghost components of packed words: on real objects read them through the real accessors
+        try:
+            return object.__getattribute__(o, name)
+        except AttributeError:
+            return int(getattr(o, {"$y": "_year", "$m": "_month", "$d": "_day", "$o": "_calendar_ordinal"}[name]))
     return object.__getattribute__(o, name)
 
 
